@@ -23,6 +23,8 @@ def gen(prop, tier, seed):
             parts.append("N %d" % h)
             state[h] = "NS"
         nops = r.randint(1, 40)
+        if i % 40 == 39:
+            nops = r.randint(100, 300)   # a few long histories: handles restarted and destroyed many times over
         vt_events = 5
         for _ in range(nops):
             h = r.randrange(nh) if r.random() < 0.93 else NULLH
